@@ -65,6 +65,20 @@ CLAIMED = {
             "classes {0, 1e-20, comparable, 100x}: reduced rows/weights vs model, optimum vs exact WLS, value/variance/zero covariance "
             "of the fixed parameter and finiteness checked on the result.",
             NOTE + WLSNOTE + "fix_alpha variance at the first reference location taken as 0.", "§8 C07"),
+    "C08": ("Lean 4: the sampler's index arithmetic equals the documented layout (all sizes), percentile monotonicity; unit-perturbation samplers give an exact unpacking correspondence; statistical sub-checks with fixed seeds",
+            "Proof: C08_fromI_head, C08_fromI_alpha, C08_unpack_matches_layout_double (the Fortran-order reshape of the sampled tail "
+            "reads tau^d_{a,t} from its documented slot), C08_unpack_matches_layout_single, C08_percentile_monotone (linear-interpolation "
+            "percentiles are non-decreasing in the level: bounds ordered along CI). Every run: samplers replaced by unit-perturbation "
+            "samplers, every realisation compared with the model's temperature equation at p_val perturbed at the documented slot; "
+            "zero variances (bit-level equality with the calibration); all flag combinations; np.percentile vs the model; "
+            "convergence of *_mc_var to *_var and bracketing within a chi-square 6-sigma band at fixed seeds.",
+            NOTE + "Convergence and bracketing are statistical and observed, not proved; judged for nta<=1 (tmpw: nta=0) because of the C05 findings.", "§8 C08"),
+    "C09": ("Lean 4: decision table of output dimensions (decide), n-term inverse-variance inequality, label=index selection; correspondence of dims, means and variance identities",
+            "Proof: C09_no_mc_dim (no output of any mode is indexed by mc or by the averaged dimension), C09_avg2_var (1/sum(1/v_i) is "
+            "positive and <= every v_i), C09_sel_eq_isel. Every run: names/dims of all outputs vs the model table; *_avg1/_avgx1 vs the "
+            "exact mean of the calibrated temperature; *_mc_avg2_var/_avgx2_var vs 1/sum(1/var_i) of the per-cell Monte Carlo variances; "
+            "label vs index selection of the same elements with re-seeded generators.",
+            NOTE + "avg2/avgx2 values and tmpw_avg1 are Monte Carlo quantities: compared within their own 6-sigma / a quarter of |tmpf-tmpb|.", "§8 C09"),
     "C14": ("Lean 4 theorems on the model of the Python slicing in shift_double_ended and of the argmin in suggest_cable_shift_double_ended + exhaustive differential correspondence",
             "Proof (all sizes, all |i|<=nx): C14_length, C14_pairing_nonneg/neg (st[j+i] with rst[j]; st[j] with rst[j-i]), "
             "C14_zero_identity, C14_compose_nonneg/neg, C14_inverse_interior, C14_suggest_member, C14_argmin_unique (a strictly "
